@@ -207,12 +207,15 @@ def _is_table_data(f, i):
     return n["k"] == "MemberExpr" and n["member"] == "data" and n.get("fieldOf") == "splinetable"
 
 
-def cw4(P, C):
+def cw4(P, C, only=None):
     C.rule("CW-4", "handle ownership: a fresh table is stored into table->data only where the old value is known null or was freed "
            "(splinetable_init exempt: its argument is uninitialised by contract); splinetable_free deletes then nulls; "
-           "grideval's result is released exactly once after the call that can throw; ndsparse_destroy deletes the C++ type", floor=6)
+           "grideval's result is released exactly once after the call that can throw; ndsparse_destroy deletes the C++ type",
+           floor=6 if only is None else len(only) + 2)
     W = {f.name: f for f in wrappers(P)}
     for f in W.values():
+        if only is not None and f.name not in only:
+            continue
         # stores to table->data
         stores = []
         for i in f.walk():
@@ -277,6 +280,8 @@ def cw4(P, C):
         (bd, jd), (bn, jn) = pos[dels[0]], pos[nulls[0]]
         ok2 = (bd == bn and jn > jd) or (bn in f.reachable_blocks(bd) and bd not in f.reachable_blocks(bn))
     C.ob("CW-4", "splinetable_free", "null-after-delete", ok2, f.where(), "table->data is reset to NULL after the delete (no dangling handle / double free)")
+    if only is not None:
+        return
     # grideval: release
     f = W.get("splinetable_grideval")
     if f is not None:
